@@ -98,7 +98,10 @@ Fixpoint split_done (cur : list Z) (col : list cell) : list (list Z) :=
   end.
 
 (* ---- scripted sub-environments behind DummyVecEnv, optionally monitored (executable) ---- *)
-(* mode 0: no monitor; 1: gym Monitor around every sub-environment; 2: VecMonitor around the vector *)
+(* mode 0: no monitor; 1: gym Monitor around every sub-environment; 2: VecMonitor around the vector;
+   3: Monitor inside a "lives" wrapper (as EpisodicLifeEnv outside Monitor): the wrapper reports terminated=True when a
+   life is lost (here: the step's info tag is a multiple of 4) although the episode goes on; the following reset does
+   not reset the environment or the Monitor, and the info carries no "episode" entry *)
 Record senv := mk_senv { se_cur : cursor; se_mon : mstate; se_acc : vacc }.
 
 Definition senv_reset (sc : script) (e : senv) : senv :=
@@ -112,12 +115,14 @@ Definition senv_step (mode : Z) (sc : script) (e : senv) : senv * cell :=
   let d := st_term st || st_trunc st in
   let '(m1, mo) := mon_op true (se_mon e) (MStep (st_r4 st) (st_term st) (st_trunc st)) in
   let '(a1, vo) := vm_env_step (se_acc e) (st_r4 st) d in
-  let ep := if mode =? 1 then match mo with MInfo x => x | _ => None end
+  let ep := if (mode =? 1) || (mode =? 3) then match mo with MInfo x => x | _ => None end
             else if mode =? 2 then vo else None in
+  let life := (mode =? 3) && negb d && (st_info st mod 4 =? 0) in
   let e1 := mk_senv c1 m1 a1 in
-  (* DummyVecEnv resets the sub-environment at once; VecMonitor's accumulator was already zeroed *)
+  (* DummyVecEnv resets the sub-environment at once; VecMonitor's accumulator was already zeroed;
+     after a lost life the wrapper swallows the reset *)
   let e2 := if d then let '(c2, _, _) := env_reset sc c1 in mk_senv c2 (fst (mon_op true m1 MReset)) a1 else e1 in
-  (e2, mk_cell (st_r4 st) d ep).
+  (e2, mk_cell (st_r4 st) (d || life) ep).
 
 Fixpoint stream (fuel : nat) (mode : Z) (scs : list script) (es : list senv) : list (list cell) :=
   match fuel with
@@ -130,3 +135,23 @@ Fixpoint stream (fuel : nat) (mode : Z) (scs : list script) (es : list senv) : l
 Definition evaluate_scripted (fuel : nat) (mode : Z) (n : Z) (scs : list script) :=
   let '(sts, out, halted) := evaluate (negb (mode =? 0)) n (length scs) (stream fuel mode scs (map senv_init scs)) in
   (map snd out, map fst out, halted).
+
+(* ---- Monitor under evaluate_policy: a column is monitor-consistent when its "episode" entries are what a
+   (Vec)Monitor-style accumulator reports at the REAL episode ends (real = an entry is present) ---- *)
+Fixpoint mon_consistent (a : vacc) (col : list (cell * bool)) : bool :=   (* cell, real end *)
+  match col with
+  | [] => true
+  | (c, real) :: t =>
+      let '(a', o) := vm_env_step a (c_r c) real in
+      (match c_ep c, o with
+       | Some e, Some e' => (fst e =? fst e') && (snd e =? snd e')
+       | None, None => true
+       | _, _ => false
+       end) && (implb real (c_done c)) && mon_consistent a' t
+  end.
+(* the true episodes: (sum, count) of the rewards between REAL ends, whatever extra "done" flags there are *)
+Fixpoint true_episodes (cr cl : Z) (col : list (cell * bool)) : list (Z * Z) :=
+  match col with
+  | [] => []
+  | (c, real) :: t => if real then (cr + c_r c, cl + 1) :: true_episodes 0 0 t else true_episodes (cr + c_r c) (cl + 1) t
+  end.
